@@ -17,17 +17,25 @@ func init() {
 
 var vpOldUmask = -1
 
-func vpxFsSetup(name string, exists bool, mode int, umask int) string {
+// With link set, the path is a symbolic link to the existing file.
+func vpxFsSetup(name string, exists bool, mode int, umask int, link bool) string {
 	dir, err := os.MkdirTemp("", "vpc18")
 	if err != nil {
 		panic(err)
 	}
 	path := filepath.Join(dir, name)
 	if exists {
-		if err := os.WriteFile(path, []byte("old content"), 0600); err != nil {
+		file := path
+		if link {
+			file = filepath.Join(dir, "target-of-"+name)
+			if err := os.Symlink(file, path); err != nil {
+				panic(err)
+			}
+		}
+		if err := os.WriteFile(file, []byte("old content"), 0600); err != nil {
 			panic(err)
 		}
-		if err := os.Chmod(path, os.FileMode(mode)); err != nil {
+		if err := os.Chmod(file, os.FileMode(mode)); err != nil {
 			panic(err)
 		}
 	}
@@ -65,8 +73,8 @@ func vpSmallPrivateKey() *PrivateKey {
 	return &PrivateKey{P: big.NewInt(23), Q: big.NewInt(47), PPrime: big.NewInt(11), QPrime: big.NewInt(23)}
 }
 
-// C18-O1: PrivateKey.WriteToFile for every prior state of the target (absent
-// or present with any permission bits), every umask and both values of the
+// C18-O1: PrivateKey.WriteToFile for every prior state of the target (absent,
+// present with any permission bits, or a symbolic link to such a file), every umask and both values of the
 // overwrite flag: a file that holds the key after the call is not accessible
 // to group or others; without the flag an existing file is left alone.
 func vpC18_O1() {
@@ -74,7 +82,8 @@ func vpC18_O1() {
 	mode := vpIntRange("mode", 0, 0777)
 	umask := vpIntRange("umask", 0, 0777)
 	force := vpBool("force")
-	path := vpxFsSetup("sk.xml", exists, mode, umask)
+	link := vpBool("symlink") // the existing target is reached through a symbolic link
+	path := vpxFsSetup("sk.xml", exists, mode, umask, link)
 	_, err := vpSmallPrivateKey().WriteToFile(path, force)
 	hasKey, after := vpxFsHasData(path), vpxFsMode(path)
 	vpxFsDone(path)
